@@ -7,6 +7,12 @@
 //!   result: reached(0/1: TLS up and an HTTP response received) asked(0/1: server sent a CertificateRequest)
 //! case 17 2 cert ca events..   events: 0 handshake | 1 good cert ca reload | 2 k use established connection k
 //!   result: per handshake 1 cert_seen asked; per reload 1/0; per use 1 cert_seen | 0
+//! case 17 4 which skip_verify: the roots / client CA given are a file WITHOUT any certificate, or no file at all;
+//!           the process's system store (SSL_CERT_FILE) holds root A, under which server certificate 0 was issued
+//!   which 0: client given a blank --tls-ca        -> reached (must be: only when verification is skipped)
+//!         1: client given no --tls-ca (system roots) -> reached
+//!         2: server given a blank client CA        -> 1 if the identity can be built (must fail: 0)
+//!         3: a good client CA, client certificate under root A only (the system store) -> reached (must not be)
 //! case 17 3 url_host(0 127.0.0.1, 1 localhost) hostname(0 none, 1 localhost, 2 other.example)
 //!           tls_server_name(0 none, 1 localhost, 2 other.example) skip_verify
 //!   the real client (client_main_inner -> ws_connect::handshake) against the TLS listener whose
@@ -61,6 +67,11 @@ impl Pki {
         let ca_b = make_ca("verif root B");
         let cca = make_ca("verif client CA");
         std::fs::write(d.join("rootA.pem"), &ca_a.2).unwrap();
+        std::fs::write(d.join("blank.pem"), b"# a CA bundle that holds no certificate\n\n").unwrap();
+        // a client certificate issued under root A (which is also what the harness installs as the system store)
+        let c3 = make_leaf(&ca_a, "client.local", "client under system root", true);
+        std::fs::write(d.join("cli3.pem"), &c3.0).unwrap();
+        std::fs::write(d.join("cli3.key"), &c3.1).unwrap();
         std::fs::write(d.join("clientca.pem"), &cca.2).unwrap();
         let mut srv_der = vec![];
         let s0 = make_leaf(&ca_a, "localhost", "srv trusted", false);
@@ -316,6 +327,33 @@ async fn name_case(pki: &Pki, srv: &Server, echo_port: u16, c: &[u64]) -> Vec<u6
     vec![u64::from(reached)]
 }
 
+async fn blank_case(pki: &Pki, servers: &[Server], c: &[u64]) -> Vec<u64> {
+    let d = pki.d();
+    let skip = c[1] != 0;
+    let blank = p(d, "blank.pem");
+    let get = |ca: Option<String>, cert: Option<(String, String)>, port: u16| async move {
+        match TcpStream::connect(("127.0.0.1", port)).await {
+            Err(_) => 9,
+            Ok(tcp) => {
+                let (cc, ck) = match &cert { Some((a, b)) => (Some(a.as_str()), Some(b.as_str())), None => (None, None) };
+                match tls_connect(tcp, "localhost", cc, ck, ca.as_deref(), skip).await {
+                    Err(_) => 0,
+                    Ok(mut s) => u64::from(http_roundtrip(&mut s, true).await),
+                }
+            }
+        }
+    };
+    match c[0] {
+        0 => vec![get(Some(blank), None, servers[0].port).await],
+        1 => vec![get(None, None, servers[0].port).await],
+        2 => {
+            let r = make_tls_identity(&p(d, "srv0.pem"), &p(d, "srv0.key"), Some(&blank)).await;
+            vec![u64::from(r.is_ok())]
+        }
+        _ => vec![get(Some(p(d, "rootA.pem")), Some((p(d, "cli3.pem"), p(d, "cli3.key"))), servers[1].port).await],
+    }
+}
+
 pub struct Ctx {
     echo_port: u16,
     rt: tokio::runtime::Runtime,
@@ -328,6 +366,8 @@ impl Ctx {
     pub fn new() -> Self {
         let rt = tokio::runtime::Builder::new_multi_thread().worker_threads(4).enable_all().build().unwrap();
         let pki = Pki::new();
+        // the "system" root store of this process holds root A only (rustls-native-certs honours SSL_CERT_FILE)
+        unsafe { std::env::set_var("SSL_CERT_FILE", p(pki.d(), "rootA.pem")) };
         let servers = rt.block_on(async {
             let mut v = vec![];
             for sc in 0..3u64 {
@@ -359,6 +399,7 @@ impl Ctx {
                 self.n.set(self.n.get() + 1);
                 self.rt.block_on(reload_case(&self.pki, &format!("r{}", self.n.get()), &c[1..]))
             }
+            Some(4) if c.len() == 3 && c[1] < 4 => self.rt.block_on(blank_case(&self.pki, &self.servers, &c[1..])),
             Some(3) if c.len() == 5 => self.rt.block_on(name_case(&self.pki, &self.servers[0], self.echo_port, &c[1..])),
             _ => vec![999_999],
         }
@@ -379,6 +420,13 @@ pub fn generate(a: &Args, out: &mut Out) {
                     }
                 }
             }
+        }
+    }
+    for which in 0..4u64 {
+        for sk in 0..2u64 {
+            let c = vec![17, 4, which, sk];
+            let r = ctx.run_case(&c[1..]);
+            out.emit(&c, &r);
         }
     }
     for url in 0..2u64 {
